@@ -11,23 +11,33 @@ import (
 // reference "foo" to "bar" changes exactly the references named foo (any
 // case): the structure after the rename equals the structure before with
 // those references replaced, and the printed result re-parses to it.
-// cover: renamed, untouched
+// cover: renamed, untouched, dotted
 func VerifC11_Rename() {
 	src := excellent.VerifGenExpression(2)
 	e, err := excellent.Parse(src, nil)
 	if err != nil {
 		return
 	}
+	// a plain rename, or (as the 13.3 migration's webhook -> webhook.json) a rename to a dotted
+	// extension of the old name whose added part is also a lookup key the expressions use
+	newName := "bar"
+	dotted := zzverif.Choice("rename-to-dotted-extension", 2) == 1
+	if dotted {
+		newName = "foo.Foo"
+		zzverif.Cover("dotted")
+	}
 	before := excellent.VerifNormDump(e)
-	changed := ContextRefRename("foo", "bar")(e)
+	changed := ContextRefRename("foo", newName)(e)
 	after := excellent.VerifNormDump(e)
-	want := strings.ReplaceAll(before, "(ref foo)", "(ref bar)")
+	want := strings.ReplaceAll(before, "(ref foo)", "(ref "+strings.ToLower(newName)+")")
 	zzverif.Assert(after == want, "renaming a context reference changed something other than exactly the renamed references")
 	zzverif.Assert(changed == (before != after), "the rename's 'changed' result disagrees with whether anything was renamed")
 	if changed {
 		zzverif.Cover("renamed")
-		back, err := excellent.Parse(e.String(), nil)
-		zzverif.Assert(err == nil && excellent.VerifNormDump(back) == after, "the printed form of a renamed expression does not parse back to it")
+		if !dotted {
+			back, err := excellent.Parse(e.String(), nil)
+			zzverif.Assert(err == nil && excellent.VerifNormDump(back) == after, "the printed form of a renamed expression does not parse back to it")
+		}
 	} else {
 		zzverif.Cover("untouched")
 	}
